@@ -4,6 +4,8 @@ use std::collections::{BTreeMap, HashSet};
 pub mod docs;
 pub mod hist;
 pub mod links;
+pub mod names;
+pub mod paths;
 pub mod positions;
 pub mod sched;
 pub mod reqs;
@@ -15,6 +17,8 @@ pub fn get(id: &str) -> Option<Box<dyn Engine>> {
         "C03" => Some(Box::new(docs::C03)),
         "C12" => Some(Box::new(reqs::C12)),
         "C11" => Some(Box::new(sched::C11)),
+        "C14" => Some(Box::new(names::C14)),
+        "C15" => Some(Box::new(paths::C15)),
         "C13" => Some(Box::new(positions::C13)),
         "C05" => Some(Box::new(links::C05)),
         "C06" => Some(Box::new(links::C06)),
